@@ -139,6 +139,12 @@ def spawnxCmd (ncalls argbase : Nat) (names : List String) : String :=
 
 def procCmd (ws : List String) : Option String :=
   match ws with
+  | "spawnx" :: n :: ab :: k :: rest => do
+    let n ← n.toNat?
+    let ab ← ab.toNat?
+    let k ← k.toNat?
+    let names ← rest.mapM fun h => (unhex h).map fun bs => String.ofList (bs.map fun b => Char.ofNat b.toNat)
+    if names.length ≠ k then none else some (spawnxCmd n ab names)
   | kind :: msize :: p :: b :: cP :: sP :: n :: rest =>
     if kind == "args" || kind == "env" then do
       let msize ← msize.toNat?
@@ -179,12 +185,6 @@ def procCmd (ws : List String) : Option String :=
   | ["exit", code] => do
     let code ← code.toNat?
     some s!"exited {procExitStatus code}"
-  | "spawnx" :: n :: ab :: k :: rest => do
-    let n ← n.toNat?
-    let ab ← ab.toNat?
-    let k ← k.toNat?
-    let names ← rest.mapM fun h => (unhex h).map fun bs => String.ofList (bs.map fun b => Char.ofNat b.toNat)
-    if names.length ≠ k then none else some (spawnxCmd n ab names)
   | ["spawn", t, p, e] => do
     some (spawnCmd (← t.toNat?) (← p.toNat?) ((← e.toNat?) != 0) 1)
   | ["spawn", t, p, e, seed] => do
